@@ -4,7 +4,7 @@
 export GOFLAGS=-mod=mod GOPROXY=off GOSUMDB=off GOTOOLCHAIN=local
 for d in /verif/seeded/*/; do
   n=$(basename $d); [ -f $d/patch.diff ] || continue
-  prop=$(python3 -c "import json;print(json.load(open('$d/meta.json'))['breaks_property'])")
+  prop=$(python3 -c "import json;m=json.load(open('$d/meta.json'));print(m.get('check_with',m['breaks_property']))")
   wt=/tmp/sa_wt_$$; git -C /repo worktree add -q $wt HEAD || exit 3
   if ( cd $wt && git apply $d/patch.diff ) 2>/dev/null; then
     out=$(VERIF_REPO=$wt /verif/h/bin/vcheck $prop 2>&1); rc=$?
